@@ -177,13 +177,18 @@ func (m tagMap) line() Line {
 // valueNeedsQuote returns whether the value v must be written as a quoted literal, so that
 // the line is parsed back to the same value: empty values, values with separators, values
 // with leading or trailing spaces (the parser trims them), values which start with a quote
-// character (the parser would unquote them) and the last value of the line, if it ends with
-// the closing curly brace (the parser would take it for the closing brace of the line).
+// character (the parser would unquote them), values with a line break (the LQL lexer reads a
+// {tags} literal within one line) and the last value of the line, if it ends with the closing
+// curly brace (the parser would take it for the closing brace of the line).
 func valueNeedsQuote(v string, last bool) bool {
 	if len(v) == 0 || strings.IndexByte(v, kvstring.KeyValueSeparator[0]) >= 0 || strings.IndexByte(v, kvstring.FieldsSeparator[0]) >= 0 {
 		return true
 	}
 	if v[0] == ' ' || v[len(v)-1] == ' ' || v[0] == '"' || v[0] == '`' {
+		return true
+	}
+	if strings.IndexByte(v, '\n') >= 0 {
+		// a {tags} literal of an LQL statement is one token of one line
 		return true
 	}
 	return last && v[len(v)-1] == '}'
